@@ -121,6 +121,7 @@ package heapq
 //@   ensures  [C05] moved: result != i ==> heapFrom(q, L)
 //@   ensures  [C05] stayed: result == i ==> heapBut(q, L, i) && unchanged(elems(q.data))
 //@   ensures  [C05] bag: bag(q.data) == old(bag(q.data))
+//@   ensures  [C05] top: i < len(q.data) && result != i ==> (2*i + 1 < len(q.data) && q.data[i] == old(q.data[2*i + 1])) || (2*i + 2 < len(q.data) && q.data[i] == old(q.data[2*i + 2]))
 //@   ensures  [C06] tracked: trk(q, i)
 //@   ensures  [C06] repbelow: isReporter(q.move) ==> forall j int :: {q.data[j]} 0 <= j && j < i && j < len(q.data) ==> rep[key(q.data[j])] == old(rep[key(q.data[j])])
 //@   modifies elems(q.data), rep
@@ -131,6 +132,7 @@ package heapq
 //@   loop 1: invariant [C05] kids: kidsAboveGrandparent(q, L, i)
 //@   loop 1: invariant [C05] same: i == old(i) ==> unchanged(elems(q.data))
 //@   loop 1: invariant [C05] bag: bag(q.data) == old(bag(q.data))
+//@   loop 1: invariant [C05] top: i != old(i) ==> old(i) < len(q.data) && ((2*old(i) + 1 < len(q.data) && q.data[old(i)] == old(q.data[2*i + 1])) || (2*old(i) + 2 < len(q.data) && q.data[old(i)] == old(q.data[2*i + 2])))
 //@   loop 1: invariant [C06] tracked: trk(q, old(i))
 //@   loop 1: invariant [C06] repbelow: isReporter(q.move) ==> forall j int :: {q.data[j]} 0 <= j && j < old(i) && j < len(q.data) ==> rep[key(q.data[j])] == old(rep[key(q.data[j])])
 //@   loop 1: decreases len(q.data) - i
@@ -148,9 +150,11 @@ package heapq
 //@   ensures  [C05] heap: heapOK(q)
 //@   ensures  [C05] bag: bagadd(bag(q.data), result) == old(bag(q.data))
 //@   ensures  [C05] vacated: backing(q.data, len(q.data)) == result
+//@   ensures  [C05] next: i == 0 && len(q.data) > 0 ==> ord(q.cmp, result, q.data[0]) <= 0
 //@   ensures  [C06] tracked: trk(q, 0)
 //@   modifies q.data, elems(q.data), rep
 //@   call pushDown#1: L = 0
+//@   at entry: apply [C05] rootMin(q)
 //@
 //@ func (*Queue).Pop
 //@   requires q != nil
@@ -163,6 +167,7 @@ package heapq
 //@   ensures  [C05] heap: heapOK(q)
 //@   ensures  [C05] bag: old(len(q.data)) > 0 ==> bagadd(bag(q.data), result.0) == old(bag(q.data))
 //@   ensures  [C05] vacated: old(len(q.data)) > 0 ==> backing(q.data, len(q.data)) == result.0
+//@   ensures  [C05] next: len(q.data) > 0 ==> ord(q.cmp, result.0, q.data[0]) <= 0
 //@   ensures  [C06] tracked: trk(q, 0)
 //@   modifies q.data, elems(q.data), rep
 //@   at entry: apply [C05] rootMin(q)
@@ -246,15 +251,21 @@ package heapq
 //@   loop 1: invariant count: ncalls(f) == old(ncalls(f)) + it1
 //@   loop 1: invariant args: forall i int :: 0 <= i && i < it1 ==> callarg(f, old(ncalls(f)) + i) == q.data[i] && callret(f, old(ncalls(f)) + i)
 //@
-// Sort: a heap under the reversed comparison over the caller's slice, popped until empty (every Pop moves the greatest
-// remaining element to the end of the shrinking heap). Proved here: no panic, termination, nothing outside vs is
-// written. "Sorted permutation" is a bounded stand-in: the loop argument needs that the elements Pop leaves in the
-// heap were in it before, and the heap contracts state that for the multiset only.
+// Sort: a heap under the reversed comparison over the caller's slice, popped until empty: every Pop moves the greatest
+// remaining element to the end of the shrinking heap. Proved: the slice ends up sorted under cmp (the part of vs
+// beyond the heap is sorted and everything still in the heap is not above it: Pop returns the front, which is not
+// below the new front, which is not below anything left in the heap), no panic, termination, nothing outside vs is
+// written. That the result is a permutation of the input is a bounded stand-in (Pop and NewWithData keep the
+// multiset of the heap, proved; carrying that to the whole slice needs a split lemma for multisets of ranges).
 //@ func Sort
 //@   role cmp ord
 //@   ensures outside: unchanged_outside(vs)
+//@   ensures [C05] sorted: forall a int, b int :: {vs[a], vs[b]} 0 <= a && a < b && b < len(vs) ==> ord(cmp, vs[a], vs[b]) <= 0
 //@   modifies elems(vs), rep
 //@   loop 1: invariant frame: q != nil && fresh(q) && q.data.base == vs.base && q.data.off == vs.off && len(q.data) <= len(vs) && unchanged_outside(vs) && other_arrays_unchanged(vs)
-//@   loop 1: invariant [C05] heap: heapOK(q)
+//@   loop 1: invariant [C05] heap: heapOK(q) && q.cmp == rcmp
+//@   loop 1: invariant [C05] tail: forall a int, b int :: {vs[a], vs[b]} len(q.data) <= a && a < b && b < len(vs) ==> ord(cmp, vs[a], vs[b]) <= 0
+//@   loop 1: invariant [C05] bound: forall j int, a int :: {vs[j], vs[a]} 0 <= j && j < len(q.data) && len(q.data) <= a && a < len(vs) ==> ord(cmp, vs[j], vs[a]) <= 0
 //@   loop 1: invariant [C06] tracked: trk(q, 0)
 //@   loop 1: decreases len(q.data)
+//@   at after "q.Pop()": apply [C05] rootMin(q)
